@@ -56,6 +56,26 @@ CLAIMED.update({
            "DESIGN.md section 5 C03, 3.5", TIE_NOTE, "Coq proof over the model of validURL with net/url as oracle + generated-table instance facts + differential correspondence + WHATWG output oracle"),
  "C10": _c("proof", "Theorems C10_filter / C10_no_rule_no_keep / C10_empty_dropped: the exact characterisation of the rebuilt style value (declarations kept in order iff a rule of the element or a global rule accepts the lower-cased, escape-stripped value for the lower-cased, prefix-stripped property). Partial: browser-equivalence of removeUnicode and of douceur's tokenisation is not claimed.",
            "DESIGN.md section 5 C10", TIE_NOTE, "Coq characterisation of the model of sanitizeStyles with douceur as oracle + differential correspondence on sanitizeStyles / removeUnicode"),
+ "C06": _c("proof", "Theorems C06_text_emitted_once_partial / C06_read_back / C06_inert / C06_never_raw: a text token outside skipped and script/style regions is emitted exactly once, escaped; unescape(escape d) = d for every byte string; the escaped bytes contain no markup-significant character; nothing is written raw without AllowUnsafe. "
+           "Partial: the statement over the whole re-tokenised output needs the round-trip theorem; the text-equality oracle checks it on every case.", "DESIGN.md section 5 C06", TIE_NOTE,
+           "Coq proof (induction over bytes for unescape-escape; loop case analysis) + token-stream and chunk correspondence + text equality oracle"),
+ "C07": _c("proof", "Theorems C07_any_rule_suffices_partial / C07_additive / C07_accepted_attr_unchanged: a value accepted by any one of the rules covering an attribute is kept, adding a rule never rejects what was accepted, an accepted attribute passes the filter unchanged. "
+           "Partial: byte-for-byte identity of whole conforming documents needs the round-trip theorem (pass-through oracle instead); explicit entries shadow pattern rules (finding F11).", "DESIGN.md section 5 C07", TIE_NOTE,
+           "Coq proof over association-list rule tables + differential correspondence + pass-through oracle on generated conforming documents"),
+ "C09": _c("proof", "Theorems C09_stack_invariant / C09_dropped_pair_partial: the closing-tag stack is consulted safely on every token list; a non-void element dropped for lack of attributes is popped by exactly its own end tag, restoring stack, flag and skipping state. "
+           "Partial: the induction over whole well-nested documents is carried by the bounded-exhaustive loop correspondence and the balance oracle.", "DESIGN.md section 5 C09", TIE_NOTE,
+           "Coq invariant proof over the loop model + bounded-exhaustive correspondence + stack-balance oracle on generated trees"),
+ "C13": _c("proof", "Theorems C13_rule_order_irrelevant_partial / C13_no_dependence_on_earlier_calls: in the model sanitising is a function of the policy value and the input, and the order in which pattern rules are merged is irrelevant. "
+           "Partial: data-race freedom and concurrent = sequential are runtime facts, validated by a race-detector stress run (16 goroutines per shared policy), not proved.", "DESIGN.md section 5 C13", TIE_NOTE,
+           "Coq proof of order-independence over the model + Go race detector stress run comparing concurrent with sequential results"),
+ "C14": _c("proof", "Theorems C14_no_panic / C14_entry_points_no_panic: the only panicking operation of the token loop is unreachable for every token list and policy; every model function is total. "
+           "Partial: time is measured (adversarial size-parameterised families under a wall-clock budget), not proved.", "DESIGN.md section 5 C14", TIE_NOTE,
+           "Coq invariant proof (no panic) + adversarial complexity sweep and panic hunting on the implementation"),
+ "C17": _c("proof", "Theorems C17_rules_accumulate_partial / C17_rule_lists / C17_switch_last_setting / C17_skip_set_last_setting over Builder.apply. "
+           "Partial: order/case independence of whole histories is carried by the policy-dump correspondence (every table after every call on interleaved policies) and the behaviour oracle.", "DESIGN.md section 5 C17", TIE_NOTE,
+           "Coq proof over the builder model + policy-state correspondence after every builder call + behavioural equivalence oracle"),
+ "C20": _c("proof", "Theorems C20_escaping_not_applied_twice_partial / C20_rel_tokens_not_repeated: the three mechanisms the property names. Partial: composition over whole documents is checked by the idempotence oracle on every case of the policy class.",
+           "DESIGN.md section 5 C20", TIE_NOTE, "Coq proof of the component idempotence lemmas + differential correspondence + idempotence oracle"),
 })
 
 NOT_YET = {}
